@@ -46,7 +46,8 @@ pub fn domain(letter: char, p: Profile) -> Vec<Vec<u8>> {
         'I' => s(&["0", "1", "-1", "9223372036854775807", "-9223372036854775808", "x"]),
         'F' => s(&["1", "-1.5", "inf", "nan", "x"]),
         'X' => s(&["0", "1", "-1", "-100", "100"]),
-        'M' => s(&["a", "b"]),
+        // members / fields: two ordinary ones and one that is not valid UTF-8
+        'M' => vec![b"a".to_vec(), b"b".to_vec(), b"\xff\xfe".to_vec()],
         'P' => s(&["*", "k?", "["]),
         'C' => s(&["0", "1", "2", "-1", "x"]),
         'T' => s(&["0", "1", "100000", "-1", "x"]),
